@@ -87,7 +87,7 @@ Proof.
     by (destruct Hm; subst; eexists; vm_compute; reflexivity).
   destruct E1 as [s E1]. destruct E2 as [H1 E2]. rewrite E1, E2.
   assert (Ex : mul32 x (B754_finite false 8388608 (-23) H1) = x).
-  { apply (Bmult_one_r 24 128 x); auto. cbn. unfold F2R. cbn. lra. }
+  { apply (Bmult_one_r 24 128 x); auto. vm_compute. lra. }
   rewrite Ex.
   assert (Ew : exists s', mul32 w (B754_zero s) = B754_zero s') by (destruct w; try discriminate; eexists; reflexivity).
   destruct Ew as [s' Ew]. rewrite Ew.
